@@ -351,3 +351,102 @@ def rule_W1(ctx):
         if not any(a in p for a in simple_allowed):
             r.finding(p, "simple-list-mutation", ":".join(F.fns[p]["span"].split(":")[:2]), "mutates SimpleGarnishData's value list in place (%s): stored values must stay at their address unchanged" % ", ".join(sorted(ms)))
     return r
+
+
+# --------------------------------------------------------------------------------------- G4
+
+LOOKUP_METHODS = ("get_list_item", "get_list_item_with_symbol", "get_list_len", "get_list_item_iter")
+
+
+def _err_constructions(F, f):
+    """Locally constructed error values in f: (label, where).  label = DataErrorType variant, 'state_error',
+    RuntimeError constructor name, or 'untyped' (a message-only error)."""
+    out = []
+    claimed = set()
+    for n in walk(f["hir"]):
+        k = n.get("k")
+        if k not in ("Call", "MethodCall"):
+            continue
+        d = callee(n) or ""
+        label = None
+        if d.endswith("DataError::new"):
+            label = "untyped"
+            for a in call_args(n):
+                for m in walk(a):
+                    if m.get("k") in ("Path", "Call"):
+                        pd = hirq.path_def(m) if m.get("k") == "Path" else callee(m)
+                        if pd and "DataErrorType::" in pd:
+                            label = last(pd)
+        elif d in ("core::result::Result::Err",) or d.endswith("::Err"):
+            inner = n["args"][0] if n.get("args") else None
+            pi = peel(inner) if inner else {}
+            # Err(DataError::new(..)) is counted once, at the inner call
+            if pi.get("k") in ("Call", "MethodCall") and ((callee(pi) or "").endswith(("DataError::new", "DataError::from")) or last(callee(pi) or "") in ("unsupported_types",) or ("RuntimeError" in (callee(pi) or "") and last(callee(pi) or "") == "new")):
+                continue
+            label = "untyped"
+        elif d.endswith("DataError::from") or (last(d) == "from" and "DataError" in n.get("ty", "")):
+            label = "untyped"
+        elif last(d) in ("state_error", "instruction_error", "implementation_error"):
+            label = last(d)
+        elif "RuntimeError" in d and last(d) in ("new", "unsupported_types"):
+            label = "RuntimeError::" + last(d)
+        if label:
+            key = (loc(n), label)
+            if key in claimed:
+                continue
+            claimed.add(key)
+            out.append((label, loc(n)))
+    return out
+
+
+def rule_G4(ctx):
+    F = ctx.F
+    r = RuleResult("G4", "lookup-error-discipline: list lookups construct only the reviewed errors (not-a-list / corrupt cell); 'absent' and 'out of range' are Ok(None)")
+    al = allow("lookup_errors.json")
+    scope = []
+    for f in F.fns.values():
+        ti = f.get("trait_item", "")
+        if f["crate"] == "garnish_lang_simple_data" and any(ti.endswith("GarnishData::" + m) for m in LOOKUP_METHODS):
+            scope.append(f)
+    # helpers of those methods inside the data crate (one level of resolved calls, transitively)
+    seen = set(f["path"] for f in scope)
+    work = list(scope)
+    helper_names = al.get("_helper_scope", ["get_list_associations_len", "get_list_association", "search_for_associative_item", "search_for_associative_item_index"])
+    while work:
+        f = work.pop()
+        for d, n in hirq.calls_in(f["hir"]):
+            g = F.fns.get(d)
+            if g and g["crate"] == "garnish_lang_simple_data" and g["path"] not in seen and g.get("name") in helper_names:
+                seen.add(g["path"])
+                scope.append(g)
+                work.append(g)
+    for f in F.fns.values():
+        if f["crate"] == "garnish_lang_runtime" and f.get("name") in ("index_list", "access_with_symbol") and f["kind"] != "Closure":
+            scope.append(f)
+    r.floor("list lookup functions in scope", len(scope), 10)
+    r.analysed["functions"] = sorted(f["path"] for f in scope)
+    for f in scope:
+        errs = _err_constructions(F, f)
+        by = {}
+        for label, where in errs:
+            by.setdefault(label, []).append(where)
+        r.examine((f["path"], "fn"), bool(errs), {"fn": f["path"], "constructed_errors": {k: len(v) for k, v in by.items()}})
+        fa = al.get(f["path"], {})
+        for label, wheres in sorted(by.items()):
+            for w in wheres:
+                r.examine((f["path"], label, w), True)
+            allowed = fa.get(label, {}).get("count", 0)
+            if len(wheres) > allowed:
+                r.finding(f["path"], "err:%s|n=%d" % (label, len(wheres)), wheres[0],
+                          "list lookup constructs %d error(s) of kind %s at %s; the reviewed list allows %d%s. A lookup must report an absent key or an index outside 0..n-1 as Ok(None)" % (
+                              len(wheres), label, ", ".join(wheres), allowed, (" (" + fa[label]["reason"] + ")") if label in fa else ""))
+    # controls
+    for f in F.fns_in("gfixture::g4::"):
+        if f["kind"] == "Closure":
+            continue
+        hit = bool(_err_constructions(F, f))
+        if f["name"].startswith("ctl_"):
+            r.control(f["name"], hit)
+        elif f["name"].startswith("ok_"):
+            r.neg_control(f["name"], not hit)
+    return r
